@@ -643,6 +643,16 @@ def m_vec_remove(ex, st, callee, args, dty, m):
     return ("__fork__", alts)
 
 
+@model(r"Vec::<(.*)>::pop$")
+def m_vec_pop(ex, st, callee, args, dty, m):
+    v = deref(ex, args[0])
+    if isinstance(v, Seq):
+        if not v.items:
+            return mk_none(dty)
+        return mk_some(dty, v.items.pop())
+    return NotImplemented
+
+
 @model(r"Vec::<(.*)>::truncate$")
 def m_vec_truncate(ex, st, callee, args, dty, m):
     r, n = args
@@ -1575,6 +1585,21 @@ def sum_driver(ex, items, closure, dty, collect=False):
     if by_ref and not isinstance(closure, Ref):
         env = Ref(Cell(closure), (), True)
     return ("__inline__", b, [env] + list(items))
+
+
+@model(r"<(?:std|core)::slice::Iter<'_, (u8|u16|u32|u64|u128|usize)> as Iterator>::sum::<(?:&?)(?:u8|u16|u32|u64|u128|usize)>$")
+def m_slice_iter_sum(ex, st, callee, args, dty, m):
+    items = _seq_item_refs(ex, args[0])
+    if items is None:
+        return NotImplemented
+    w = INT_TYPES[m.group(1)][0]
+    total = bv(0, w)
+    for r in items:
+        x = deref(ex, r)
+        if not isinstance(x, I):
+            return NotImplemented
+        total = total + x.bv          # release-build semantics of `impl Sum`: wrapping (the dev build panics on overflow)
+    return I(z3.simplify(total), False)
 
 
 @model(r"<(?:std::iter::|core::iter::)?Map<.*> as Iterator>::sum::<(u64|u32|usize)>$")
